@@ -379,8 +379,8 @@ def r_escape(ctx) -> RuleResult:
                 if not ok:
                     res.fail(Finding("R-ESCAPE", fi.module.rel, fi.qualname, norm(n), f"raises something other than {exc.name}", line=n.lineno))
             if isinstance(n, ast.Assert):
-                from ..sizedom import implied_by_guard
-                why_ = implied_by_guard(fi.node, n)
+                from ..sizedom import implied_by_callers_guard, implied_by_guard
+                why_ = implied_by_guard(fi.node, n) or implied_by_callers_guard(ctx, fi, n)
                 if why_:
                     res.inst(fi.fq, short(n, 70), "ok", detail=why_)
                 else:
